@@ -25,7 +25,7 @@ def coding_cases(draw, tier, fast=None, vt=None, message=None, force_table=False
     if vt is None:
         vt_length = 0
     elif vt == "any":
-        vt_length = draw(st.one_of(st.integers(1, 4), st.integers(1, 12)))
+        vt_length = draw(st.one_of(st.integers(1, 4), st.integers(1, 12), st.sampled_from([31, 32, 33, 40, 64, 100])))
     else:
         vt_length = vt
     options = draw(st.sampled_from(["plain", "plain", "plain", "plain", "verbose", "path", "layout", "all", "dtype",
